@@ -98,3 +98,25 @@ func BigCmp(x, y *big.Int) int {
 }
 
 func CryptobyteBigOne() *big.Int { return BigNewInt(1) }
+
+// sign handling is minimal: negative values only arise when parsing adversarial DER integers
+var bigNegative = map[*big.Int]bool{}
+
+func BigNeg(z, x *big.Int) *big.Int {
+	bigMag[z] = bigMag[x]
+	bigSet[z] = true
+	bigNegative[z] = !bigNegative[x]
+	return z
+}
+
+// Add is only needed for the two's-complement fix-up of negative DER integers; the magnitude of
+// the result is an uninterpreted function of the operands (no claim depends on its value)
+func BigAdd(z, x, y *big.Int) *big.Int {
+	n := len(bigMag[x])
+	if len(bigMag[y]) > n {
+		n = len(bigMag[y])
+	}
+	bigMag[z] = vUFN("big_add", n+1, bigMag[x], bigMag[y])
+	bigSet[z] = true
+	return z
+}
